@@ -170,3 +170,31 @@ Proof.
   intros H. assert (E: err2 sx x IF IB i = 0) by (apply masked_sum_zero; exact H).
   split; [exact E|]. intros j _. rewrite E. apply err2_nonneg.
 Qed.
+
+Local Open Scope nat_scope.
+Section Contig.
+Context {A : Type}.
+(* nothing is reordered, repeated or invented: the shifted forward channel is the original with exactly |i| samples cut from
+   ONE end, the shifted backward channel the original with exactly |i| samples cut from the OTHER end *)
+Lemma shift_is_contiguous i (l : list A) : (Z.abs i <= Z.of_nat (length l))%Z ->
+  exists cut_fw cut_bw, length cut_fw = Z.to_nat (Z.abs i) /\ length cut_bw = Z.to_nat (Z.abs i) /\
+    if (i <? 0)%Z then l = shift_fw i l ++ cut_fw /\ l = cut_bw ++ shift_bw i l
+    else l = cut_fw ++ shift_fw i l /\ l = shift_bw i l ++ cut_bw.
+Proof.
+  intros H. unfold shift_fw, shift_bw. destruct (i <? 0)%Z eqn:E.
+  - apply Z.ltb_lt in E. set (k := Z.to_nat (- i)). assert (Hk: k <= length l) by (unfold k; lia).
+    assert (Ek: Z.to_nat (Z.abs i) = k) by (unfold k; f_equal; lia). rewrite Ek.
+    exists (skipn (length l - k) l), (firstn k l). repeat split.
+    + rewrite skipn_length. lia.
+    + rewrite firstn_length. lia.
+    + symmetry. apply firstn_skipn.
+    + symmetry. apply firstn_skipn.
+  - apply Z.ltb_ge in E. set (k := Z.to_nat i). assert (Hk: k <= length l) by (unfold k; lia).
+    assert (Ek: Z.to_nat (Z.abs i) = k) by (unfold k; f_equal; lia). rewrite Ek.
+    exists (firstn k l), (skipn (length l - k) l). repeat split.
+    + rewrite firstn_length. lia.
+    + rewrite skipn_length. lia.
+    + symmetry. apply firstn_skipn.
+    + symmetry. apply firstn_skipn.
+Qed.
+End Contig.
